@@ -4,7 +4,7 @@
 #include <sys/types.h>
 unsigned sysrand_calls, sysrand_deliveries;
 uint64_t sysrand_fail_mask, sysrand_eintr_mask, sysrand_tape_seed = 1;
-int sysrand_flip_delivery = -1, sysrand_mode, sysrand_eintr_errno = EINTR;
+int sysrand_flip_delivery = -1, sysrand_mode, sysrand_eintr_errno = EINTR, sysrand_fail_errno = EIO;
 unsigned sysrand_flip_byte, sysrand_flip_bit;
 static uint64_t eintr_done;
 static uint64_t mix(uint64_t x)
@@ -32,7 +32,7 @@ ssize_t getrandom(void *buf, size_t n, unsigned flags)
         eintr_done |= (uint64_t)1 << k; errno = sysrand_eintr_errno; return -1; /* same logical call is retried */
     }
     sysrand_calls++;
-    if (k < 64 && ((sysrand_fail_mask >> k) & 1)) { errno = EIO; return -1; }
+    if (k < 64 && ((sysrand_fail_mask >> k) & 1)) { errno = sysrand_fail_errno; return -1; }
     sysrand_expected(sysrand_deliveries++, (uint8_t *)buf, n);
     return (ssize_t)n;
 }
